@@ -71,6 +71,11 @@ def run(ctx):
         r4(ctx, facts, cfg)
         r5(ctx, facts, cfg)
         r6(ctx, facts, cfg)
+        # the predicate a logger is erased on (R3): the backend's 'everything is drained' check, and what the unbounded queue calls empty
+        from rules import c07, c02
+        c07.r1d(ctx, facts, cfg, rule="C17.R3f")
+        bn = {m.base: m for m in facts.fns if m.config == cfg and m.cls == c02.CLS and not m.rec.get("ctor") and not m.rec.get("dtor")}
+        c02.check_empty_semantics(ctx, bn, rule="C17.R3g")
 
 
 def r1(ctx, facts, cfg):
